@@ -48,6 +48,9 @@ echo "stage_asan: $crate exit=$rc after $(( $(date +%s) - t1 ))s" >&2
 if [ "$rc" -ne 0 ] && grep -qE 'ERROR: (AddressSanitizer|LeakSanitizer)' "$log"; then
   # The driver only looks at the end of the log: repeat the headline (without
   # pid / addresses, so that it is the same on every run) after the long report.
+  # (the driver takes the first marker line within the last 3000 bytes as the violation's signature:
+  # push the report's own lines out of that window so that the normalised headline is that line)
+  for _ in $(seq 1 52); do echo "----------------------------------------------------------------"; done
   echo "---- sanitizer report headline (full report above)"
   grep -E 'ERROR: (AddressSanitizer|LeakSanitizer)|^SUMMARY: ' "$log" | head -n 4 \
     | sed -E 's/==[0-9]+==//g; s/0x[0-9a-fA-F]+/0x_/g; s/\(pid=[0-9]+\)//g; s/ T[0-9]+\)?$//'
